@@ -268,6 +268,15 @@ func run(c *vf.Ctx, si int) {
 	}
 	step := func(boundary int) bool {
 		no := height() + 1
+		// parameters in effect for the next block (parameter votes can change them)
+		if sv, err := n.SysValues(); err == nil {
+			if v, ok := new(big.Int).SetString(sv.StakingMin, 10); ok {
+				minStake = v
+			}
+			if v, ok := new(big.Int).SetString(sv.NamePrice, 10); ok {
+				namePrice = v
+			}
+		}
 		ops := genOps(no, 2+r.Intn(5), boundary)
 		var txs [][]byte
 		cd := caseDesc{Scenario: name, Height: no}
